@@ -13,14 +13,37 @@ Z3_TIMEOUT_MS = int(os.environ.get("PYVC_Z3_TIMEOUT_MS", "48000"))
 CVC5_TIMEOUT_MS = int(os.environ.get("PYVC_CVC5_TIMEOUT_MS", "10000"))
 
 
+_HINTS = None
+
+
+def _hint_for(label):
+    """which z3 configuration discharged this obligation when the baseline was written (solver_hints.json): tried first, so that an obligation the
+    default tactic never decides does not spend two thirds of its budget before the configuration that does decide it gets a turn"""
+    global _HINTS
+    if _HINTS is None:
+        import json
+        import re
+
+        path = os.path.join(os.path.dirname(os.path.dirname(os.path.abspath(__file__))), "solver_hints.json")
+        try:
+            _HINTS = json.load(open(path))
+        except Exception:  # noqa: BLE001
+            _HINTS = {}
+    import re
+
+    key = re.sub(r"@\d+(:\d+)?", "", re.sub(r"#p\d+$", "", label or ""))
+    return _HINTS.get(key)
+
+
 def _solve(task):
-    idx, smt2, want_model, timeout_ms, focused = task
+    idx, smt2, want_model, timeout_ms, focused = task[:5]
+    hint = task[5] if len(task) > 5 else None
     if focused is not None:
-        r = _solve((idx, focused, False, max(timeout_ms // 2, 4000), None))
+        r = _solve((idx, focused, False, max(timeout_ms // 2, 4000), None, hint))
         if r[1] == "unsat":
             return (r[0], r[1], r[2] + "+focus", r[3], r[4], r[5])
         t_f = r[3]
-        r2 = _solve((idx, smt2, want_model, timeout_ms, None))
+        r2 = _solve((idx, smt2, want_model, timeout_ms, None, hint))
         return (r2[0], r2[1], r2[2], r2[3] + t_f, r2[4], r2[5])
     import z3
 
@@ -37,6 +60,8 @@ def _solve(task):
             ("smt-core", lambda: z3.SimpleSolver(), {}, 0.25),
             ("ematching-only", lambda: z3.SimpleSolver(), {"smt.mbqi": False}, 0.15),
         )
+        if hint:
+            makers = tuple(m for m in makers if m[0] == hint) + tuple(m for m in makers if m[0] != hint)
         z3.set_param("smt.random_seed", 0)
         for name, mk, params, share in makers:
             z3.set_param("smt.mbqi", True)
@@ -154,7 +179,7 @@ def discharge(obligations, procs=None, want_model=True, timeout_ms=None):
     timeout_ms = timeout_ms or Z3_TIMEOUT_MS
     tasks = []
     for k, ob in enumerate(obligations):
-        tasks.append((k, ob.smt2(), want_model, timeout_ms, ob.smt2(focused=True) if getattr(ob, "focus_hyps", None) is not None else None))
+        tasks.append((k, ob.smt2(), want_model, timeout_ms, ob.smt2(focused=True) if getattr(ob, "focus_hyps", None) is not None else None, _hint_for(getattr(ob, "label", None))))
     if not tasks:
         return
     results = _run_guarded(tasks, min(procs, len(tasks)), timeout_ms)
